@@ -485,6 +485,16 @@ tdigest<T, A> tdigest<T, A>::deserialize(const void* bytes, size_t size, const A
   return tdigest(reverse_merge, k, min, max, std::move(centroids), weight, std::move(buffer));
 }
 
+// conversion of a floating point field of the reference implementation's format to an unsigned integer type:
+// a value that the target type cannot represent (negative, too large, NaN) is rejected instead of being cast
+template<typename I, typename F>
+static inline I compat_cast(F value) {
+  if (!(value >= 0 && value < std::ldexp(static_cast<F>(1), std::numeric_limits<I>::digits))) {
+    throw std::invalid_argument("value out of range in the reference implementation format: " + std::to_string(value));
+  }
+  return static_cast<I>(value);
+}
+
 // compatibility with the format of the reference implementation
 // default byte order of ByteBuffer is used there, which is big endian
 template<typename T, typename A>
@@ -498,13 +508,13 @@ tdigest<T, A> tdigest<T, A>::deserialize_compat(std::istream& is, const A& alloc
   if (type == COMPAT_DOUBLE) { // compatibility with asBytes()
     const auto min = read_big_endian<double>(is);
     const auto max = read_big_endian<double>(is);
-    const auto k = static_cast<uint16_t>(read_big_endian<double>(is));
+    const auto k = compat_cast<uint16_t>(read_big_endian<double>(is));
     const auto num_centroids = read_big_endian<uint32_t>(is);
     if (!is.good()) throw std::runtime_error("error reading from std::istream");
     vector_centroid centroids(num_centroids, centroid(0, 0), allocator);
     uint64_t total_weight = 0;
     for (auto& c: centroids) {
-      const W weight = static_cast<W>(read_big_endian<double>(is));
+      const W weight = compat_cast<W>(read_big_endian<double>(is));
       const auto mean = read_big_endian<double>(is);
       c = centroid(mean, weight);
       total_weight += weight;
@@ -515,7 +525,7 @@ tdigest<T, A> tdigest<T, A>::deserialize_compat(std::istream& is, const A& alloc
   // COMPAT_FLOAT: compatibility with asSmallBytes()
   const auto min = read_big_endian<double>(is); // reference implementation uses doubles for min and max
   const auto max = read_big_endian<double>(is);
-  const auto k = static_cast<uint16_t>(read_big_endian<float>(is));
+  const auto k = compat_cast<uint16_t>(read_big_endian<float>(is));
   // reference implementation stores capacities of the array of centroids and the buffer as shorts
   // they can be derived from k in the constructor
   read<uint32_t>(is); // unused
@@ -524,7 +534,7 @@ tdigest<T, A> tdigest<T, A>::deserialize_compat(std::istream& is, const A& alloc
   vector_centroid centroids(num_centroids, centroid(0, 0), allocator);
   uint64_t total_weight = 0;
   for (auto& c: centroids) {
-    const W weight = static_cast<W>(read_big_endian<float>(is));
+    const W weight = compat_cast<W>(read_big_endian<float>(is));
     const auto mean = read_big_endian<float>(is);
     c = centroid(mean, weight);
     total_weight += weight;
@@ -555,7 +565,7 @@ tdigest<T, A> tdigest<T, A>::deserialize_compat(const void* bytes, size_t size, 
     max = byteswap(max);
     double k_double;
     ptr += copy_from_mem(ptr, k_double);
-    const uint16_t k = static_cast<uint16_t>(byteswap(k_double));
+    const uint16_t k = compat_cast<uint16_t>(byteswap(k_double));
     uint32_t num_centroids;
     ptr += copy_from_mem(ptr, num_centroids);
     num_centroids = byteswap(num_centroids);
@@ -569,8 +579,8 @@ tdigest<T, A> tdigest<T, A>::deserialize_compat(const void* bytes, size_t size, 
       double mean;
       ptr += copy_from_mem(ptr, mean);
       mean = byteswap(mean);
-      c = centroid(mean, static_cast<W>(weight));
-      total_weight += static_cast<uint64_t>(weight);
+      c = centroid(mean, compat_cast<W>(weight));
+      total_weight += c.get_weight();
     }
     return tdigest(false, k, min, max, std::move(centroids), total_weight, vector_t(allocator));
   }
@@ -584,7 +594,7 @@ tdigest<T, A> tdigest<T, A>::deserialize_compat(const void* bytes, size_t size, 
   max = byteswap(max);
   float k_float;
   ptr += copy_from_mem(ptr, k_float);
-  const uint16_t k = static_cast<uint16_t>(byteswap(k_float));
+  const uint16_t k = compat_cast<uint16_t>(byteswap(k_float));
   // reference implementation stores capacities of the array of centroids and the buffer as shorts
   // they can be derived from k in the constructor
   ptr += sizeof(uint32_t); // unused
@@ -601,8 +611,8 @@ tdigest<T, A> tdigest<T, A>::deserialize_compat(const void* bytes, size_t size, 
     float mean;
     ptr += copy_from_mem(ptr, mean);
     mean = byteswap(mean);
-    c = centroid(mean, static_cast<W>(weight));
-    total_weight += static_cast<uint64_t>(weight);
+    c = centroid(mean, compat_cast<W>(weight));
+    total_weight += c.get_weight();
   }
   return tdigest(false, k, min, max, std::move(centroids), total_weight, vector_t(allocator));
 }
